@@ -24,7 +24,8 @@ def run(cmd, cwd=None, timeout=600, out=None):
 
 def trace_inputs(d, gb, prop, object_bits, extra_flags, entry, cex_defs=None):
     outj = os.path.join(d, 'trace.json')
-    cmd = ['cbmc', gb, '--property', prop, '--trace', '--json-ui', '--object-bits', str(object_bits)] + extra_flags
+    cmd = ['cbmc', gb, '--property', prop, '--trace', '--json-ui'] + extra_flags
+    if '--object-bits' not in extra_flags: cmd += ['--object-bits', str(object_bits)]
     rc, _ = run(cmd, cwd=d, timeout=900, out=outj)
     if rc == 'timeout': return None
     try: msgs = json.load(open(outj))
@@ -82,11 +83,11 @@ def counterexample(doc, f, r, work, root, repo):
     for cap in (64, 4096):
         gb = r['rebuild'](['-DVERIF_CEX=%d' % cap], 'cex%d' % cap) if r.get('rebuild') else None
         if gb:
-            inp = trace_inputs(os.path.dirname(gb), gb, f['obligation'], ob, [x for x in r.get('cbmc_flags', []) if x.startswith('--') and x not in ('--object-bits',) and not x.isdigit()], entry)
+            inp = trace_inputs(os.path.dirname(gb), gb, f['obligation'], ob, list(r.get('cbmc_flags', [])), entry)
             if inp is not None:
                 inp['cex_capacity'] = cap; break
     if inp is None:
-        inp = trace_inputs(d, os.path.join(d, 'b.gb'), f['obligation'], ob, flags, entry)
+        inp = trace_inputs(d, os.path.join(d, 'b.gb') if os.path.exists(os.path.join(d, 'b.gb')) else os.path.join(d, 'a.gb'), f['obligation'], ob, list(r.get('cbmc_flags', [])), entry)
     doc['inputs'] = inp
     if inp is None:
         doc['native'] = 'no-counterexample'; return
@@ -141,8 +142,45 @@ static void hex(const uint8_t* p, size_t n) { for (size_t i = 0; i < n; ++i) pri
 
 # ----------------------------------------------------------------------------- family: layout accessors
 
+VALIDATORS = {
+ 'ASAM_CMP_CanPayloadBase_isValidPayload': ('ASAM::CMP::CanPayload::isValidPayload', 'VALID_CAN(d, n)', 'ERR_CAN_MUST(d)', 'ERR_CAN_MAY(d)'),
+ 'ASAM_CMP_LinPayload_isValidPayload': ('ASAM::CMP::LinPayload::isValidPayload', 'VALID_LIN(d, n)', '0', '0'),
+ 'ASAM_CMP_EthernetPayload_isValidPayload': ('ASAM::CMP::EthernetPayload::isValidPayload', 'VALID_ETH(d, n)', 'ERR_ETH_MUST(d)', 'ERR_ETH_MAY(d)'),
+ 'ASAM_CMP_AnalogPayload_isValidPayload': ('ASAM::CMP::AnalogPayload::isValidPayload', 'VALID_ANALOG(d, n)', '0', '0'),
+ 'ASAM_CMP_CaptureModulePayload_isValidPayload': ('ASAM::CMP::CaptureModulePayload::isValidPayload', 'VALID_CM(d, n)', '0', '0'),
+ 'ASAM_CMP_InterfacePayload_isValidPayload': ('ASAM::CMP::InterfacePayload::isValidPayload', 'VALID_IF(d, n)', '0', '!IF_STATUS_OK(d)'),
+ 'ASAM_CMP_Packet_isValidPacket': ('ASAM::CMP::Packet::isValidPacket', 'VALID_MSG(d, n)', '0', '0'),
+}
+
+def spec_native_prelude(root):
+    return '#define VERIF_NATIVE 1\n#define _Bool bool\nextern "C" {\n#include "%s/models/prelude.h"\n}\n#undef VIEW_IN\n#define __CPROVER_same_object(a, b) 1\n#define __CPROVER_POINTER_OFFSET(p) 0\n#define __CPROVER_is_fresh(a, b) 1\nsize_t g_k;\n#include "%s/models/vocab.h"\n' % (root, root)
+
+def validator_replay(doc, inp, r, work, root, repo):
+    fn = r['enforce']; cpp, valid, must, may = VALIDATORS[fn]
+    objs = [o for o in inp['objects'] if 'bytes' in o]
+    n = inp['args'].get('n')
+    if not objs or n is None: doc['native'] = 'no-counterexample'; return
+    bs = bytes.fromhex(objs[0]['bytes'])[:n]
+    code = PRE + spec_native_prelude(root) + '''int main(int argc, char** argv) {
+  auto in = unhex(argv[1]); const uint8_t* d = in.data(); size_t n = in.size();
+  std::vector<uint8_t> copy(in);   // exact-size heap copy so that ASan sees reads past the end
+  bool ret = %s(copy.data(), copy.size());
+  bool valid = %s; bool must = valid && (%s); bool may = valid && (%s);
+  printf("ret=%%d valid=%%d err_must=%%d err_may=%%d\\n", ret, valid, must, may);
+  return ((ret && !valid) || (ret && must) || (valid && !may && !ret)) ? 3 : 0;
+}
+''' % (cpp, valid, must, may)
+    exe = build_driver(work, repo, 'drv_val_' + hashlib.md5(fn.encode()).hexdigest()[:8], code)
+    p = subprocess.run([exe, bs.hex()], stdout=subprocess.PIPE, stderr=subprocess.PIPE, timeout=60)
+    doc['native_call'] = f"{cpp}(bytes={bs.hex()}, size={len(bs)})"
+    doc['native_observed'] = p.stdout.decode().strip(); doc['native_stderr'] = p.stderr.decode()[-800:]
+    doc['native_expected'] = 'ret => valid && !err_must;  valid && !err_may => ret'
+    doc['native'] = 'reproduced' if p.returncode != 0 else 'not-reproduced'
+    doc['replay_driver'] = code; doc['replay_argv'] = [bs.hex()]
+
 def family_of(r, root):
     name = r['name']
+    if (r['enforce'] or '') in VALIDATORS: return validator_replay
     import gen_layout_specs as G
     classes, payloads = G.parse(os.path.join(root, 'specs', 'layout', 'wire.tbl'))
     fn = r['enforce'] or ''
@@ -165,6 +203,7 @@ def table_word(bs, f):
     return int.from_bytes(bs[f['off']:f['off'] + f['width']], 'big')
 
 def accessor_replay(doc, inp, r, work, repo, q, payload, cls, f, role, method):
+    doc['replay_argv'] = None
     size = cls['size']
     objs = [o for o in inp['objects'] if 'bytes' in o]
     if payload is None:
@@ -236,6 +275,7 @@ def accessor_replay(doc, inp, r, work, repo, q, payload, cls, f, role, method):
     code = code.replace('int main(', probe + 'int main(', 1)
     exe = build_driver(work, repo, 'drv_' + hashlib.md5((q + method).encode()).hexdigest()[:10], code)
     p = subprocess.run([exe, bs.hex(), str(v), str(m)], stdout=subprocess.PIPE, stderr=subprocess.PIPE, timeout=60)
+    doc['replay_argv'] = [bs.hex(), str(v), str(m)]
     got = p.stdout.decode().strip().split('\n')[-1] if p.stdout else ''
     doc['native_call'] = f"{cls_cpp}::{method} on bytes {bs.hex()} with v={v} m={m}"
     doc['native_expected'] = expected; doc['native_observed'] = got; doc['native_stderr'] = p.stderr.decode()[-600:]
@@ -248,16 +288,17 @@ def accessor_replay(doc, inp, r, work, repo, q, payload, cls, f, role, method):
 def replay_file(path, root, repo):
     d = json.load(open(path))
     print(json.dumps({k: d.get(k) for k in ('property', 'label', 'function_cxx', 'native', 'native_call', 'native_expected', 'native_observed')}, indent=1))
-    if d.get('replay_driver') and d.get('inputs') is not None:
+    if d.get('replay_driver') and d.get('replay_argv') is not None:
         work = os.path.join(root, '.work', 'replay.%d' % os.getpid()); os.makedirs(work, exist_ok=True)
         try:
             exe = build_driver(work, repo, 'drv_replay', d['replay_driver'])
-            m = re.search(r'on bytes ([0-9a-f]*) with v=(\d+) m=(\d+)', d.get('native_call', ''))
-            if m:
-                p = subprocess.run([exe, m.group(1), m.group(2), m.group(3)], stdout=subprocess.PIPE, stderr=subprocess.PIPE, timeout=60)
-                got = p.stdout.decode().strip().split('\n')[-1]
-                print('observed now:', got, '| expected:', d.get('native_expected'))
-                return 1 if got != d.get('native_expected') else 0
+            p = subprocess.run([exe] + d['replay_argv'], stdout=subprocess.PIPE, stderr=subprocess.PIPE, timeout=120)
+            got = p.stdout.decode().strip().split('\n')[-1] if p.stdout else ''
+            print('observed now:', got, '| rc', p.returncode, '| expected:', d.get('native_expected'))
+            if p.stderr: print(p.stderr.decode()[-1500:])
+            bad = p.returncode != 0 or (d.get('native_expected') is not None and re.match(r'^[0-9a-f]*$', d['native_expected'] or 'x') and got != d['native_expected'])
+            print('REPRODUCED' if bad else 'NOT REPRODUCED on the current tree')
+            return 1 if bad else 0
         finally:
             shutil.rmtree(work, ignore_errors=True)
     return 0
